@@ -453,20 +453,23 @@ def first_difference(want, got, window=4):
 
 def compare_program(e, want, exc, contextual=True):
     """Compare everything tbutils says about exception e with the interpreter's view `want`.
-    Returns list of (sig, expected, observed)."""
+    Returns list of (sig, expected, observed, tags).  Only disagreements about the stack lines of a traceback
+    that the interpreter prints with a "[Previous line repeated ...]" summary carry the tag
+    frame_repeated_more_than_3_times (violations are grouped by signature and tag set)."""
     from boltons import tbutils
     out = []
+    rep_tags = ('frame_repeated_more_than_3_times',) if want['collapsed'] else ()
     seen = set()
     current = [None, None]
 
-    def report(cls, member, what, exp, obs):
+    def report(cls, member, what, exp, obs, tags=()):
         # The Contextual* classes inherit every member compared here: a disagreement they merely inherit
         # (same member, same observable, same case) is the base class's defect and is reported once.
         base = cls.replace('Contextual', '')
         if (base, member, what) in seen:
             return
         seen.add((cls, member, what))
-        out.append(('C16|fn:%s.%s|%s' % (cls, member, what), exp, obs))
+        out.append(('C16|fn:%s.%s|%s' % (cls, member, what), exp, obs, tags))
 
     def guarded(cls, member, fn):
         current[:] = [cls, member]
@@ -493,9 +496,9 @@ def compare_program(e, want, exc, contextual=True):
             return True
         exp, obs = first_difference(want['tb'], got)
         if want['collapsed'] and got == want['flat_tb']:
-            report(cls, member, 'tb_lines:repeats_not_collapsed', exp, obs)
+            report(cls, member, 'tb_lines:repeats_not_collapsed', exp, obs, rep_tags)
         else:
-            report(cls, member, 'tb_lines', exp, obs)
+            report(cls, member, 'tb_lines', exp, obs, rep_tags)
         return False
 
     def compare_full(cls, member, got):
@@ -508,7 +511,7 @@ def compare_program(e, want, exc, contextual=True):
                 compare_exc_line(cls, member, got[len(tb_text):])
                 return
         exp, obs = first_difference(want['full'], got)
-        report(cls, member, 'tb_lines', exp, obs)
+        report(cls, member, 'tb_lines', exp, obs, rep_tags)
 
     def compare_classes(cls_tb, cls_ei):
         tb = e.__traceback__
@@ -571,8 +574,7 @@ def check_program(root, chain, exc, contextual=True):
         if e is None or e.__cause__ is not None or e.__context__ is not None or getattr(e, '__notes__', None):
             raise RuntimeError('generated program did not raise a plain exception: %r' % (e,))
         want = interpreter_view(e)
-        tags = ['frame_repeated_more_than_3_times'] if want['collapsed'] else []
-        out = [(sig, exp, obs, tags) for sig, exp, obs in compare_program(e, want, exc, contextual)]
+        out = compare_program(e, want, exc, contextual)
         info = {'frames': len(want['frames']), 'collapsed': want['collapsed']}
     finally:
         unload_program(name, path)
